@@ -415,16 +415,27 @@ TOK_SYMS = ["2", "7", ".", "x", "y", "s", "g", "n", "sgn", "+", "-", "*", "/", "
 
 def c11(ctx):
     ctx.coverage["rule"] = (
-        "ALL strings of up to 4 (quick) / 5 (thorough) symbols over a 25-symbol alphabet (digits, dot, letters, "
-        "sgn, operators, both bracket kinds, space/tab/newline, en-dash, an unsupported character), random longer "
+        "ALL strings of up to 3 (quick) / 4 (thorough) symbols over a 29-symbol alphabet (digits, dot, letters in "
+        "both cases, sgn/Sgn/SGN, operators, both bracket kinds, space/tab/newline, en-dash, an unsupported "
+        "character) and of exactly 4 / 5 symbols over a 16-symbol core alphabet, random longer "
         "strings, both padding modes; real tokenizer vs model token by token, plus the losslessness / class oracle "
         "on the real output. Non-trivial: at least two tokens before the end marker."
     )
     rng = random.Random(ctx.seed * 7 + 11)
     quick = ctx.tier == "quick"
     texts = []
-    for k in range(0, (4 if quick else 5) + 1):
-        for combo in itertools.product(TOK_SYMS, repeat=k):
+    core_syms = ["2", ".", "x", "s", "sgn", "+", "-", "(", "]", " ", "\t", "–", "#", "S", "SGN", "!"]
+    if quick:
+        for k in range(0, 4):
+            for combo in itertools.product(TOK_SYMS, repeat=k):
+                texts.append("".join(combo))
+        for combo in itertools.product(core_syms, repeat=4):
+            texts.append("".join(combo))
+    else:
+        for k in range(0, 5):
+            for combo in itertools.product(TOK_SYMS, repeat=k):
+                texts.append("".join(combo))
+        for combo in itertools.product(core_syms, repeat=5):
             texts.append("".join(combo))
     for _ in range(5000 if quick else 200000):
         texts.append("".join(rng.choice(TOK_SYMS + ["12.5", "abc", "sgnx", "xsgn", "0", "9", "A", "Z", "é", "\r", "sGn", "G", "abs", "Abs"])
